@@ -185,7 +185,7 @@ def recv_settings_modifies(I, loc):
     fl = simp_bool(I.heap.get(I.heap.get(loc['frame']).fields['flags']).fields['set']['ACK'])
     fr = I.frames[-1]
     for t in RECV_SETTINGS_MODIFIES:
-        local = ('local_settings' in t or '_inbound_window_manager' in t or 'max_inbound_frame_size' in t or 'decoder' in t)
+        local = ('local_settings' in t or '_inbound_window_manager' in t or 'max_inbound_frame_size' in t or 'decoder' in t or 'incoming_buffer' in t)
         if (fl is False and local) or (fl is True and not local and 'state_machine' not in t):
             continue
         I.havoc(t, fr)
@@ -196,7 +196,7 @@ RECV_SETTINGS_MODIFIES = [
     'maparr:self.local_settings._settings:items', 'maparr:self.local_settings._settings:head_none',
     'maparr:self.streams:outbound_flow_control_window', 'maparr:self.streams:max_outbound_frame_size',
     'maparr:self.streams:_inbound_window_manager.current_window_size', 'maparr:self.streams:_inbound_window_manager.max_window_size',
-    'field|self.max_outbound_frame_size|int', 'field|self.max_inbound_frame_size|int',
+    'field|self.max_outbound_frame_size|int', 'field|self.max_inbound_frame_size|int', 'field|self.incoming_buffer.max_frame_size|int',
     'field|self.encoder.header_table_size|int', 'field|self.decoder.max_header_list_size|optint',
     'field|self.decoder.max_allowed_table_size|int', 'field|self.state_machine.state|enum:ConnectionState']
 
@@ -230,13 +230,14 @@ contract(CONN + '._receive_settings_frame', props=['C11', 'C12', 'C03', 'C04', '
         ('ack-applies-pending-local-values', 'implies(ack, all(len(%s._settings[k]) == (old(len(%s._settings[k])) - 1 if old(len(%s._settings[k])) > 1 else 1) for k in %s._settings))' % (LS, LS, LS, LS), ['C11']),
         ('ack-event-lists-the-applied-changes', 'implies(ack, all((k in result[1][0].changed_settings) == (old(len(%s._settings[k])) > 1) for k in %s._settings))' % (LS, LS), ['C11']),
         ('ack-leaves-remote-settings', 'implies(ack, all(len(%s._settings[k]) == 1 and setting_current(%s, k) == old(setting_current(%s, k)) for k in %s._settings))' % (RS, RS, RS, RS), ['C11']),
+        ('frame-buffer-limit-tracks-the-inbound-limit', 'implies(old(self.incoming_buffer.max_frame_size == self.max_inbound_frame_size), self.incoming_buffer.max_frame_size == self.max_inbound_frame_size)', ['C21', 'C11']),
         ('inbound-frame-size-follows-acknowledged-setting', 'self.max_inbound_frame_size == setting_current(%s, S_MAX_FRAME_SIZE)' % LS, ['C11', 'C21'],
          'self.max_inbound_frame_size == setting_current(%s, S_MAX_FRAME_SIZE)' % LS),
         ('stream-inbound-windows-shifted', 'implies(ack, all(self.streams[k]._inbound_window_manager.current_window_size == old(self.streams[k]._inbound_window_manager.current_window_size) + (setting_current(%s, S_INITIAL_WINDOW_SIZE) - old(setting_current(%s, S_INITIAL_WINDOW_SIZE))) for k in self.streams))' % (LS, LS), ['C04', 'C11']),
         ('no-stream-opened-or-closed', 'all(k in old(self.streams) for k in self.streams) and all(k in self.streams for k in old(self.streams))', ['C27']),
         ('connection-state-kept', 'self.state_machine.state.value == cst', ['C19']),
         ('closed-connection-processes-nothing', 'cst != C_CLOSED', ['C19']),
-        ('remote-settings-stay-well-formed', 'SETTINGS_OK(%s)' % RS, ['C11', 'C12']),
+        ('settings-stay-well-formed', 'SETTINGS_OK(%s) and SETTINGS_OK(%s)' % (RS, LS), ['C11', 'C12']),
         ('GI', 'GI(self)')],
     raises=[dict(exc='InvalidSettingsValueError', props=['C12', 'C18'],
                  when='not ack and any(spec_valid_setting(k, %s[k]) != 0 for k in %s)' % (FS, FS),
@@ -245,7 +246,8 @@ contract(CONN + '._receive_settings_frame', props=['C11', 'C12', 'C03', 'C04', '
                  ensures=[('code', 'exc.error_code == FLOW_CONTROL_ERROR', ['C18', 'C12'])]),
             dict(exc='ProtocolError', props=['C17'], when='not conn_accepts(cst, CI_RECV_SETTINGS)',
                  ensures=[('code', 'exc.error_code == PROTOCOL_ERROR', ['C18'])])],
-    on_raise=[('nothing-emitted', 'len(g_out) == len(old(g_out))')],
+    on_raise=[('nothing-emitted', 'len(g_out) == len(old(g_out))'),
+              ('limits-stay-valid', '16384 <= self.max_outbound_frame_size and self.max_outbound_frame_size <= 16777215 and self.highest_inbound_stream_id == old(self.highest_inbound_stream_id)', ['C18'])],
     canary='len(result[1]) == 0')
 
 
@@ -289,6 +291,7 @@ contract(CONN + '._acknowledge_settings', props=['C11', 'C03', 'C02', 'C13', 'C1
              ('every-stream-gets-the-frame-size', 'all(self.streams[k].max_outbound_frame_size == self.max_outbound_frame_size for k in self.streams)', ['C02', 'C11']),
              ('encoder-table-size-follows', 'self.encoder.header_table_size == (old(%s) if ht_pending else old(self.encoder.header_table_size))' % NEWV(RS, 'S_HEADER_TABLE_SIZE'), ['C11', 'C13']),
              ('connection-state-kept', 'self.state_machine.state.value == cst', ['C19']),
+             ('settings-stay-well-formed', 'SETTINGS_OK(%s) and SETTINGS_OK(%s)' % (RS, LS), ['C11', 'C12']),
              ('local-side-untouched', 'self.max_inbound_frame_size == old(self.max_inbound_frame_size) and all(len(%s._settings[k]) == old(len(%s._settings[k])) for k in %s._settings)' % (LS, LS, LS), ['C11']),
              ('no-stream-opened-or-closed', 'all(k in old(self.streams) for k in self.streams) and all(k in self.streams for k in old(self.streams))'),
              ],
@@ -296,6 +299,7 @@ contract(CONN + '._acknowledge_settings', props=['C11', 'C03', 'C02', 'C13', 'C1
                  when='iw_pending and any(self.streams[k].outbound_flow_control_window + delta > MAXWIN for k in self.streams)',
                  ensures=[('code', 'exc.error_code == FLOW_CONTROL_ERROR', ['C18', 'C12'])]),
             dict(exc='ProtocolError', when='not conn_accepts(cst, CI_SEND_SETTINGS)')],
+    on_raise=[('frame-size-untouched-on-failure', 'self.max_outbound_frame_size == old(self.max_outbound_frame_size)', ['C18'])],
     canary='len(result) == 0')
 
 
@@ -304,7 +308,7 @@ contract(CONN + '._local_settings_acked', props=['C11', 'C04', 'C27'],
     args={}, setup=ack_settings_setup, requires=SOK2, result='map:h2.settings.ChangedSetting',
     modifies=[lambda I, loc: ack_summary(I, {'self': I.getattr(loc['self'], 'local_settings')}),   # closed form of 'pending-values-applied'
               'maparr:self.streams:_inbound_window_manager.current_window_size', 'maparr:self.streams:_inbound_window_manager.max_window_size',
-              'field|self.max_inbound_frame_size|int', 'field|self.decoder.max_header_list_size|optint',
+              'field|self.max_inbound_frame_size|int', 'field|self.incoming_buffer.max_frame_size|int', 'field|self.decoder.max_header_list_size|optint',
               'field|self.decoder.max_allowed_table_size|int'],
     let={'iw_pending': PEND(LS, 'S_INITIAL_WINDOW_SIZE'), 'delta': '(%s - %s)' % (NEWV(LS, 'S_INITIAL_WINDOW_SIZE'), CURV(LS, 'S_INITIAL_WINDOW_SIZE')),
          'fs_pending': PEND(LS, 'S_MAX_FRAME_SIZE'), 'ht_pending': PEND(LS, 'S_HEADER_TABLE_SIZE'),
@@ -316,9 +320,11 @@ contract(CONN + '._local_settings_acked', props=['C11', 'C04', 'C27'],
              ('stream-inbound-maxima-shifted', 'all(self.streams[k]._inbound_window_manager.max_window_size == old(self.streams[k]._inbound_window_manager.max_window_size) + (delta if iw_pending else 0) for k in self.streams)', ['C04', 'C05', 'C11']),
              ('connection-inbound-window-not-shifted', 'self._inbound_flow_control_window_manager.current_window_size == old(self._inbound_flow_control_window_manager.current_window_size)', ['C04']),
              ('inbound-frame-size-follows', 'self.max_inbound_frame_size == (old(%s) if fs_pending else old(self.max_inbound_frame_size))' % NEWV(LS, 'S_MAX_FRAME_SIZE'), ['C11', 'C21']),
+             ('frame-buffer-limit-follows-at-once', 'implies(fs_pending, self.incoming_buffer.max_frame_size == self.max_inbound_frame_size) and implies(not fs_pending, self.incoming_buffer.max_frame_size == old(self.incoming_buffer.max_frame_size))', ['C21', 'C11']),
              ('header-list-limit-follows-acknowledged-value', 'implies(hl_pending, self.decoder.max_header_list_size == old(%s))' % NEWV(LS, 'S_MAX_HEADER_LIST_SIZE'), ['C11', 'C27']),
              ('header-list-limit-kept-otherwise', 'implies(not hl_pending, self.decoder.max_header_list_size == old(self.decoder.max_header_list_size))', ['C11', 'C27']),
              ('decoder-table-limit-follows', 'self.decoder.max_allowed_table_size == (old(%s) if ht_pending else old(self.decoder.max_allowed_table_size))' % NEWV(LS, 'S_HEADER_TABLE_SIZE'), ['C11']),
+             ('settings-stay-well-formed', 'SETTINGS_OK(%s) and SETTINGS_OK(%s) and 16384 <= self.max_inbound_frame_size and self.max_inbound_frame_size <= 16777215' % (RS, LS), ['C11', 'C12']),
              ('remote-side-untouched', 'self.max_outbound_frame_size == old(self.max_outbound_frame_size) and self.outbound_flow_control_window == old(self.outbound_flow_control_window)', ['C11']),
              ('no-stream-opened-or-closed', 'all(k in old(self.streams) for k in self.streams) and all(k in self.streams for k in old(self.streams))'),
              ],
